@@ -15,7 +15,11 @@ Two ties to the real code:
      `termios.tcgetattr` of the slave side: 8 data bits, no parity, one stop bit, no XON/XOFF, RTS/CTS, DSR/DTR, raw mode
      (a pty passes 0x80..0xff under 7 data bits and ignores CRTSCTS, so the byte measurements cannot see these);
      `pty txsweep`: write padding that is not a power of two; `pty txp`: client writes while the other end drains
-     slowly (a write that cannot finish within the port's write timeout must raise, never lose bytes silently).
+     slowly (a write that cannot finish within the port's write timeout must raise, never lose bytes silently);
+     `pty echo`: full duplex — the other end echoes what it receives and blocks on its own transmit side, one thread polls
+     `read()` while another writes one burst larger than both tty queues (all bytes out and echoed back unchanged; no `read()`
+     call waits); `pty restart-burst`: bursts larger than the tty queue before and after a `stop(); start()` cycle of the
+     interface (a write that returns without exception has delivered every byte).
 If no pseudo-terminal can be opened the check still runs (a), the Lean side and the pyserial-argument part of
 `pty cfg`; the evidence then says `coverage.pty_available = false` and nothing is measured on a tty.
 
@@ -698,6 +702,245 @@ def pty_txp(pad, seed, size, rate, stats=None):
         p.close()
 
 
+def pty_echo(pad, seed, size, stats=None):
+    """full duplex: the other end echoes every byte it receives and does not take more while its own transmit side is blocked
+    (firmware waiting for room in its TX FIFO); one thread polls `SerialDevice.read()` — what CommHandler's receive thread does —
+    while this thread hands ONE burst to `SerialDevice.write()`.  The burst is larger than the two tty queues together, so it
+    can only get through if reads make progress WHILE the write is in progress.
+
+    Judged: (bytes, no clock) what the device received is a prefix of the burst (padded), what the reads returned is a prefix of
+    what the device echoed, and — once the write returned normally, the device has nothing left to echo and both directions were
+    found empty 6 times over ≥ 0.3 s — both are the whole burst.  (time, LatencyMonitor rules) no single `read()` call took longer
+    than the limit used for idle reads (0.5 s / half the port timeout); the write did not run into the port's write timeout (the
+    device takes the bytes as fast as it can, the only thing it waits for is the client's own reads)."""
+    data = payload(seed, size)
+    want = pad_expected(pad, data)
+    p = PtyPort()
+    stop = threading.Event()
+    ths = []
+    try:
+        p.dev.write_padding = pad
+        p.dev.start()
+        limit = 0.5 if p.timeout is None else min(0.5, p.timeout / 2)
+        os.set_blocking(p.master, False)
+        dev_got = bytearray()       # received by the device
+        dev_sent = bytearray()      # echoed (taken by the OS from the device)
+        cli = bytearray()           # returned by the client's reads
+        st = {"pending": 0, "dev_idle": 0, "cli_idle": 0, "last": time.perf_counter(), "reads": 0, "worst": 0.0, "slow": [],
+              "read_exc": None, "worst_at": None}
+
+        def device():
+            pending = b""
+            try:
+                while not stop.is_set():
+                    if pending:
+                        # blocked on its own transmit side: nothing is taken from the line until the echo is out
+                        _, w, _ = select.select([], [p.master], [], 0.02)
+                        n = 0
+                        if w:
+                            try:
+                                n = os.write(p.master, pending)
+                            except BlockingIOError:
+                                n = 0
+                        if n:
+                            dev_sent.extend(pending[:n])
+                            pending = pending[n:]
+                            st["pending"] = len(pending)
+                            st["last"] = time.perf_counter()
+                            st["dev_idle"] = 0
+                        else:
+                            time.sleep(0.0005)
+                        continue
+                    t = time.perf_counter()
+                    r, _, _ = select.select([p.master], [], [], 0.02)
+                    if r:
+                        c = os.read(p.master, 4096)
+                        dev_got.extend(c)
+                        pending = c
+                        st["pending"] = len(pending)
+                        st["last"] = time.perf_counter()
+                        st["dev_idle"] = 0
+                    else:
+                        st["dev_idle"] += 1
+                        if _MON[0] is not None:
+                            _MON[0].note("sleep", max(0.0, time.perf_counter() - t - 0.02))
+            except OSError:
+                pass    # the pty was closed
+
+        def reader():
+            while not stop.is_set():
+                t = time.perf_counter()
+                try:
+                    c = p.dev.read()
+                except Exception as e:
+                    st["read_exc"] = f"{type(e).__name__}: {e}"
+                    return
+                dt = time.perf_counter() - t
+                st["reads"] += 1
+                if dt > st["worst"]:
+                    st["worst"] = dt
+                    st["worst_at"] = {"read_number": st["reads"], "began": t, "took_s": round(dt, 4), "returned_bytes": len(c)}
+                if dt > limit:
+                    st["slow"].append({"took_s": round(dt, 3), "read_number": st["reads"], "began": t, "returned_bytes": len(c)})
+                if c:
+                    cli.extend(c)
+                    st["last"] = time.perf_counter()
+                    st["cli_idle"] = 0
+                else:
+                    st["cli_idle"] += 1
+                    paced_sleep(0.0005)
+        ths = [threading.Thread(target=device, daemon=True), threading.Thread(target=reader, daemon=True)]
+        for th in ths:
+            th.start()
+        err = None
+        t0 = time.perf_counter()
+        try:
+            p.dev.write(data)
+        except Exception as e:
+            err = e
+        took = time.perf_counter() - t0
+        at_return = {"device_received": len(dev_got), "client_read_back": len(cli)}
+        # until everything is back, or nothing moves any more: the device has nothing left to echo, it found the line empty
+        # and the client's reads came back empty, each ≥ 6 times in a row, over ≥ 0.3 s (+ 4 × the lateness seen)
+        why = "deadline"
+        end = time.time() + 30
+        while time.time() < end:
+            if st["read_exc"]:
+                why = "read-raised"
+                break
+            if err is None and len(cli) >= len(want) and len(dev_got) >= len(want):
+                why = "complete"
+                break
+            m = _MON[0]
+            need = min(5.0, 0.3 + (4 * m.worst() if m is not None else 0.0))
+            if st["pending"] == 0 and st["dev_idle"] >= 6 and st["cli_idle"] >= 6 and time.perf_counter() - st["last"] >= need:
+                why = "nothing-moves-any-more"
+                break
+            time.sleep(0.01)
+        stop.set()
+        for th in ths:
+            th.join(3)
+        got_dev, sent_dev, got_cli = bytes(dev_got), bytes(dev_sent), bytes(cli)
+        for s in st["slow"] + ([st["worst_at"]] if st["worst_at"] else []):
+            if "began" in s:
+                b = s.pop("began")
+                # how much of this read() call fell inside the client's write() call
+                s["overlap_with_the_client_write_s"] = round(max(0.0, min(b + s["took_s"], t0 + took) - max(b, t0)), 3)
+        facts = {"burst_bytes": len(want), "write": "returned normally" if err is None else f"raised {type(err).__name__}: {err}",
+                 "write_took_s": round(took, 3), "when_the_write_came_back": at_return, "device_received": len(got_dev),
+                 "device_echoed": len(sent_dev), "client_read_back": len(got_cli), "reads": st["reads"],
+                 "slowest_read_s": round(st["worst"], 4), "slowest_read": st["worst_at"], "stopped_because": why}
+        if stats is not None:
+            stats["echo_bytes_each_way"] = stats.get("echo_bytes_each_way", 0) + len(got_dev)
+            stats["echo_max_read_s"] = round(max(stats.get("echo_max_read_s", 0.0), st["worst"]), 6)
+            stats["echo_write_s"] = round(max(stats.get("echo_write_s", 0.0), took), 3)
+        scen = (f"other end of the pty echoes what it receives (and takes nothing while its own transmit side is blocked); one thread polls "
+                f"dev.read(), the main thread calls dev.write({size} bytes), padding {pad}")
+        if st["read_exc"]:
+            return {"key": "pty-read-raises", "what": scen + ": a read raised", "expected": "bytes", "observed": st["read_exc"], "facts": facts}
+        if not want.startswith(got_dev):
+            return {"key": "pty-tx-altered", "what": scen + ": what the device received is not a prefix of the burst (padded)",
+                    "expected": "prefix of the bytes written", "observed": diff_report(want[:len(got_dev)], got_dev), "facts": facts}
+        if not sent_dev.startswith(got_cli):
+            return {"key": "pty-rx-altered", "what": scen + ": what the client's reads returned is not a prefix of what the device echoed",
+                    "expected": "prefix of the bytes echoed", "observed": diff_report(sent_dev[:len(got_cli)], got_cli), "facts": facts}
+        if st["slow"]:
+            s = st["slow"][0]
+            return timed({"key": "pty-read-blocks", "what": scen + f": read() number {s['read_number']} took {s['took_s']:.2f} s"
+                          + (f", {s['overlap_with_the_client_write_s']:.2f} s of it while the client's write was in progress"
+                             if s["overlap_with_the_client_write_s"] > 0 else "")
+                          + f"; the write {facts['write']} after {took:.2f} s, the device had received {at_return['device_received']} of "
+                          f"{len(want)} bytes, the reads had returned {at_return['client_read_back']}",
+                          "expected": f"every read() returns in < {limit} s (a non-blocking, full-duplex pipe)",
+                          "observed": {"slow_reads": st["slow"][:4], **facts}})
+        if err is not None:
+            v = {"key": "pty-write-raises", "what": scen + f": the write raised after {took:.2f} s with {at_return['device_received']} of "
+                 f"{len(want)} bytes received by the device and {at_return['client_read_back']} read back by the client "
+                 f"(slowest read() {st['worst']:.3f} s)", "expected": "no exception: the device takes the bytes as fast as the client reads the echo",
+                 "observed": f"{type(err).__name__}: {err}", "facts": facts}
+            return timed(v) if "Timeout" in type(err).__name__ else v
+        if got_dev != want or got_cli != want:
+            v = {"key": "pty-tx-altered" if got_dev != want else "pty-rx-altered",
+                 "what": scen + f": the write returned normally, yet {len(got_dev)} of {len(want)} bytes arrived at the device and "
+                 f"{len(got_cli)} were read back; stopped because: {why}", "expected": "the whole burst out and echoed back unchanged",
+                 "observed": diff_report(want, got_dev if got_dev != want else got_cli), "facts": facts}
+            return v if why == "nothing-moves-any-more" else timed(v)
+        return None
+    finally:
+        stop.set()
+        for th in ths:
+            th.join(2)
+        p.close()
+
+
+RESTART_STEPS = (("start(); write(burst)", ("start",)), ("stop(); start(); write(burst)", ("stop", "start")),
+                 ("write(burst) again, no stop in between", ()))
+
+
+def pty_restart_burst(pad, seed, size, stats=None):
+    """client → other end across a stop()/start() cycle of the interface, on ONE SerialDevice: `start(); write(burst)`, then
+    `stop(); start(); write(burst)`, then a third `write(burst)`.  The burst is larger than the tty queue; the other end starts
+    taking bytes 0.1 s after each write began (so the OS accepts the burst only piecewise and `write` has to keep going), then
+    takes them as fast as it can.
+
+    Judged per burst: (bytes, no clock) a write that returned without exception ⇒ every byte of it (padded) arrives, unchanged
+    and in order — `master_drain` reads until the line, after the write returned, stayed empty 6 polls over ≥ 0.3 s; what arrived
+    before an exception is a prefix.  (time, LatencyMonitor rules) the write does not run into the port's write timeout (the line
+    is free after 0.1 s of the 1 s)."""
+    data = payload(seed, size)
+    want = pad_expected(pad, data)
+    p = PtyPort()
+    try:
+        p.dev.write_padding = pad
+        history = []
+        for num, (name, calls) in enumerate(RESTART_STEPS, 1):
+            for c in calls:
+                getattr(p.dev, c)()
+            history.append(name)
+            box = {}
+            done = threading.Event()
+
+            def drain():
+                note_burst(paced_sleep(0.1))
+                box["got"], box["why"] = p.master_drain(len(want), done, time.time() + 30)
+            th = threading.Thread(target=drain, daemon=True)
+            th.start()
+            err = None
+            t0 = time.perf_counter()
+            try:
+                p.dev.write(data)
+            except Exception as e:
+                err = e
+            took = time.perf_counter() - t0
+            done.set()
+            th.join(40)
+            got = box.get("got", b"")
+            why = box.get("why", "reader-thread-did-not-finish")
+            scen = (f"dev = SerialDevice(<pty>), padding {pad}; " + "; ".join(history) + f" — burst = {size} bytes, the other end starts "
+                    f"taking bytes 0.1 s after each write began: burst number {num}")
+            facts = {"burst_number": num, "calls": "; ".join(history), "burst_bytes": len(want), "arrived": len(got),
+                     "write": "returned normally" if err is None else f"raised {type(err).__name__}: {err}", "write_took_s": round(took, 3),
+                     "reader_stopped_because": why}
+            if not want.startswith(got):
+                return {"key": "pty-tx-altered", "what": scen + ": what arrived at the other end is not a prefix of the bytes written",
+                        "expected": "the bytes written (padded), in order", "observed": diff_report(want, got), "facts": facts}
+            if err is not None:
+                v = {"key": "pty-write-raises", "what": scen + f" raised after {took:.2f} s with {len(got)} of {len(want)} bytes delivered",
+                     "expected": "no exception", "observed": f"{type(err).__name__}: {err}", "facts": facts}
+                return timed(v) if "Timeout" in type(err).__name__ else v
+            if got != want:
+                v = {"key": "pty-tx-altered", "what": scen + f": the write returned without exception after {took:.2f} s, but only {len(got)} "
+                     f"of {len(want)} bytes arrived at the other end (an intact prefix); the reader stopped because: {why}",
+                     "expected": "every byte written arrives (or the write raises)", "observed": diff_report(want, got), "facts": facts}
+                return v if why in ("complete", "line-empty-after-writer-finished") else timed(v)
+            if stats is not None:
+                stats["tx_bytes"] = stats.get("tx_bytes", 0) + len(want)
+                stats["bursts_across_stop_start"] = stats.get("bursts_across_stop_start", 0) + 1
+        return None
+    finally:
+        p.close()
+
+
 # what a transparent line needs (the property's own statement; pyserial's vocabulary)
 WANT_SETTINGS = {"bytesize": 8, "parity": "N", "stopbits": 1, "xonxoff": False, "rtscts": False, "dsrdtr": False}
 WHY = {"bytesize": "on a UART only the low data bits of every byte go over the wire: 0x80..0xff arrive altered",
@@ -1350,6 +1593,10 @@ def pty_case_once(line, stats=None):
         return pty_txp(int(t[2]), int(t[3]), int(t[4]), int(t[5]), stats)
     if t[1] == "cfg":
         return pty_cfg(stats)
+    if t[1] == "echo":
+        return pty_echo(int(t[2]), int(t[3]), int(t[4]), stats)
+    if t[1] == "restart-burst":
+        return pty_restart_burst(int(t[2]), int(t[3]), int(t[4]), stats)
     raise ValueError(line)
 
 
@@ -1701,6 +1948,13 @@ class C18(Prop):
         if T:
             yield f"pty txp 16 {rng.randrange(10**6)} 65536 400000", True
             yield f"pty txp 0 {rng.randrange(10**6)} 20000 5000", True
+        # full duplex: a burst larger than both tty queues against an echoing device that blocks on its own transmit side,
+        # while another thread polls read(); bursts larger than the tty queue across a stop()/start() cycle of the interface
+        yield f"pty echo 0 {rng.randrange(10**6)} 262144", True
+        yield f"pty restart-burst 0 {rng.randrange(10**6)} 200000", True
+        if T:
+            yield f"pty echo 4 {rng.randrange(10**6)} 100001", True
+            yield f"pty restart-burst 16 {rng.randrange(10**6)} 65537", True
         # device frames longer than the tty buffer / than 4096 bytes, written in paced pieces (idle reads fall inside them)
         yield f"pty bigsession 4 {rng.randrange(10**6)} -,4097,-,4200,9000,-,20000,60006,-", True
         if T:
@@ -1800,7 +2054,11 @@ class C18(Prop):
                          "real time. cfg = settings handed to pyserial / read back from the pyserial object and termios (8N1, raw, no "
                          "flow control), rx = other end → client bursts with paced writer, tx = client writes with padding (eager "
                          "reader), txsweep = every burst length on one port with a padding that is not a power of two, txp = client "
-                         "writes with a reader paced to <rate> bytes/s, "
+                         "writes with a reader paced to <rate> bytes/s, echo = one burst larger than both tty queues written while "
+                         "another thread polls read() and the other end echoes (blocking on its own transmit side): everything out and "
+                         "back unchanged, no read() call waits, restart-burst = start(); write(burst); stop(); start(); write(burst); "
+                         "write(burst) with bursts larger than the tty queue, the other end taking bytes from 0.1 s after each write began: "
+                         "a write that returned without exception delivered every byte, "
                          "bytes = all 256 values each way, idle = timed reads on an idle line, session = real CommHandler against "
                          "harness/refdev.RefDevice over the pty vs over an in-memory link, bigsession = the same with device stream "
                          "frames of the listed lengths (4097..60006 bytes) written in paced pieces. timing = scheduling latency seen "
